@@ -1,4 +1,3 @@
-import PeptVerif.Model.Proto
-/-! driver for C05 (placeholder: replies bad-op to everything until the model is written) -/
-def step (_line : String) : String := "bad-op"
-def main : IO Unit := Proto.runDriver step
+import Driver.C02Ops
+/-! driver for C05: mass tables, mass / composition calculators and their specification (shared ops in Driver/C02Ops.lean) -/
+def main : IO Unit := Proto.runDriver MassOps.step
